@@ -21,6 +21,7 @@ IDX = {"subject_index": "subject", "predicate_index": "predicate", "object_index
 
 def run(ctx):
     P = ctx.program()
+    join_condition_is_conjunction(ctx, P, "R8")
     E = ctx.effects()
     # ---- R1
     want = {"triples", "subject_index", "predicate_index", "object_index"}
@@ -215,3 +216,28 @@ def _matches_table(ctx, P):
                what="index maintenance in RdfStore::remove drops entries that are not the removed triple (%s): lookups through "
                     "that index lose triples that are still in the set" % "; ".join(bad), where=g.loc())
     ctx.floor("R7", ncl, 3, "retain predicates in RdfStore::remove")
+
+
+
+def join_condition_is_conjunction(ctx, P, rule):
+    """Two solutions join only if they agree on *every* shared variable. RdfJoinCondition::evaluate walks the list of shared
+    variable pairs; an existential combinator over that list (`any`, `find`, `position`) accepts a pair of rows as soon as
+    one variable agrees and multiplies the solutions of every join on two or more variables."""
+    ev = [f for f in P.fns.values() if f.kind != "closure" and "RdfJoinCondition" in f.id and f.id.split("::")[-1] in ("evaluate", "matches")]
+    n = 0
+    for f in ev:
+        bad = None
+        for g in P.family(f):
+            gx = FlowCx(P, g)
+            for bi, t in g.calls():
+                nm = (t.get("f") or callee_name(t)).split("::")[-1]
+                if nm in ("any", "find", "find_map", "position") and t["args"] and any(x.startswith("cell:RdfJoinCondition.") for x in gx.tags(t["args"][0])):
+                    bad = (g, t["line"], nm)
+                if t["args"] and any(x.startswith("cell:RdfJoinCondition.") for x in gx.tags(t["args"][0])):
+                    n += 1
+        ctx.ob(rule, "%s#all-shared-variables" % short_id(f.id), bad is None,
+               what="%s combines the shared join variables with `%s`: rows that agree on one shared variable but not on the others are "
+                    "joined, so a pattern pair sharing two variables returns spurious solutions" % (short_id(f.id), bad[2] if bad else ""),
+               where=(bad[0].loc(bad[1]) if bad else f.loc()))
+    ctx.floor(rule, len(ev), 1, "RdfJoinCondition evaluators")
+    ctx.floor(rule, n, 1, "uses of the shared-variable list in the evaluator")
